@@ -6,6 +6,7 @@ import GeonumModel.Lemmas.GradeAngle
 import GeonumModel.Spec.RealWitness
 import GeonumModel.Lemmas.ExactAdd
 import GeonumModel.Lemmas.SumMagFloat
+import GeonumModel.Lemmas.FloatSumDir
 
 set_option linter.unusedSectionVars false
 set_option linter.unusedVariables false
@@ -304,6 +305,18 @@ theorem sum_mag_float {a b : Geonum F} (ha : a.MagDom) (hb : b.MagDom)
   have e24 : (A + B) * (1 / 2 ^ 24 + 1 / 2 ^ 50) = (A + B) / 2 ^ 24 + (A + B) * (1 / 2 ^ 50) := by ring
   rw [e24]
   linarith
+/-- (B) **direction of the sum in rounded arithmetic, general branch**: for canonical operands with in-domain magnitudes and combined
+    blade count `cb ≤ 2^39`, the float total of `a + b` is the libm `atan2` of the rounded component sums
+    `(Σ |g|·sin, Σ |g|·cos)` plus a whole number of turns, to within `1e-10 + (40·cb + 140)·2⁻⁵³` — through the rounded blade
+    shift `(cb·π)/2`, the subtraction, the constructor's `·π/π` in either order, its negative path (`ceil`, `+ 4n·qp`, clamp), the exact
+    `fmod`, the snap and the final whole-blade addition.  Together with `sum_mag_float` (magnitude) this is the Cartesian-sum clause
+    in rounded arithmetic up to the accuracy of the two component sums themselves. -/
+theorem sum_direction_float {a b : Geonum F} (ha : a.angle.Inv) (hb : b.angle.Inv) (hma : a.MagDom) (hmb : b.MagDom)
+    (hcb : a.angle.blade + b.angle.blade ≤ 2 ^ 39) (h1 : sameAngle a b = false) (h2 : oppositeAngle a b = false) :
+    ∃ n : ℕ, |Angle.Tq (a.add b).angle - (val (FloatLike.atan2 (oppSum a b) (adjSum a b)) + (n : ℝ) * (4 * val (qp : F)))|
+      < val (e10 : F) + (40 * ((a.angle.blade + b.angle.blade : ℕ) : ℝ) + 140) * (1 / 2 ^ 53) + 1 / 10 ^ 298 :=
+  Geonum.add_general_direction_float ha hb hma hmb hcb h1 h2
+
 end B
 
 /-! PARTIAL (B-tier): the magnitude half of the float statement is `sum_mag_float` above (the `sqrt(eps)·scale` bound).  The direction
